@@ -102,18 +102,153 @@ theorem size_iters : ∀ l : List CItem, okItems l = true → depthL l ≤ sizeL
     | _ => simp only [depthL, cstIters, sizeL, CST.size] at *; omega
 end
 
+/-! ### the XML declaration, read back -/
+def viBody (x : CDecl) : CST :=
+  .seq [.seq [.leaf x.wsV, .leaf kwVersion, cstEq x.eqV1 x.eqV2],
+    .seq [.leaf [x.qV], .node N.version_num (.seq [.leaf ['1', '.'], .leaf x.minor]), .leaf [x.qV]]]
+
+def encKids : Option (Str × Str × Str × Char × Str) → List (Nat × CST)
+  | none => []
+  | some (w, e1, e2, q, name) => [(N.encoding_decl, .seq [.seq [.leaf w, .leaf kwEncoding, cstEq e1 e2],
+      .seq [.leaf [q], .node N.enc_name (.seq [.leaf (encAlpha name), .leaf (encRest name)]), .leaf [q]]])]
+
+def sdKids : Option (Str × Str × Str × Char × Bool) → List (Nat × CST)
+  | none => []
+  | some (w, e1, e2, q, b) => [(N.sd_decl, .seq [.seq [.leaf w, .leaf kwStandalone, cstEq e1 e2], .seq [.leaf [q], .leaf (yesNo b), .leaf [q]]])]
+
+def declBody (x : CDecl) : CST :=
+  .seq [.leaf ['<', '?', 'x', 'm', 'l'], .seq [cstVersionInfo x, cstEnc x.enc, cstSd x.sd], .seq [.leaf x.wsEnd, .leaf ['?', '>']]]
+
+theorem cstDecl_eq (x : CDecl) : cstDecl x = .node N.xml_decl (declBody x) := rfl
+
+theorem declBody_kidsL (x : CDecl) : (declBody x).kidsL = (N.version_info, viBody x) :: (encKids x.enc ++ sdKids x.sd) := by
+  have h1 : (cstEnc x.enc).kidsL = encKids x.enc := by
+    cases x.enc with
+    | none => rfl
+    | some v => obtain ⟨w, e1, e2, q, name⟩ := v; rfl
+  have h2 : (cstSd x.sd).kidsL = sdKids x.sd := by
+    cases x.sd with
+    | none => rfl
+    | some v => obtain ⟨w, e1, e2, q, b⟩ := v; rfl
+  simp [declBody, CST.kidsL, kidsLL, cstVersionInfo, viBody, h1, h2]
+
+theorem decl_version (x : CDecl) :
+    ((findL N.version_info (declBody x).kidsL).bind fun v => (findL N.version_num v.kidsL).map (·.flatten)) = some ('1' :: '.' :: x.minor) := by
+  have e1 : (N.eq == N.version_num) = false := by decide
+  simp [declBody_kidsL, findL, viBody, CST.kidsL, kidsLL, cstEq, e1, CST.flatten, flattenL]
+
+theorem decl_encoding (x : CDecl) :
+    ((findL N.encoding_decl (declBody x).kidsL).bind fun v => (findL N.enc_name v.kidsL).map (·.flatten)) = x.enc.map (fun e => e.2.2.2.2) := by
+  have e1 : (N.version_info == N.encoding_decl) = false := by decide
+  have e2 : (N.sd_decl == N.encoding_decl) = false := by decide
+  have e3 : (N.eq == N.enc_name) = false := by decide
+  rw [declBody_kidsL]
+  cases x.enc with
+  | none =>
+    cases x.sd with
+    | none => simp [findL, encKids, sdKids, e1]
+    | some v => obtain ⟨w, e1', e2', q, b⟩ := v; simp [findL, encKids, sdKids, e1, e2]
+  | some v =>
+    obtain ⟨w, e1', e2', q, name⟩ := v
+    simp [findL, encKids, e1, CST.kidsL, kidsLL, cstEq, e3, CST.flatten, flattenL, encAlpha, encRest, spanP_append]
+
+theorem hasSub_no_head (c : Char) (t : Str) : ∀ s : Str, c ∉ s → hasSub (c :: t) s = false
+  | [], _ => by simp [hasSub, splitAtSub]
+  | d :: ds, h => by
+    have hd : c ≠ d := fun e => h (by simp [e])
+    have ih := hasSub_no_head c t ds (fun hm => h (by simp [hm]))
+    simp only [hasSub] at ih ⊢
+    simp only [splitAtSub, stripPrefix, hd, if_false]
+    cases hs : splitAtSub (c :: t) ds with
+    | none => rfl
+    | some v => simp [hs] at ih
+
+theorem hasSub_mid (pat : Str) : ∀ (a b : Str), hasSub pat (a ++ (pat ++ b)) = true
+  | [], b => by
+    cases pat with
+    | nil => cases b <;> simp [hasSub, splitAtSub, stripPrefix]
+    | cons c t =>
+      simp only [hasSub, List.nil_append, List.cons_append, splitAtSub]
+      have := stripPrefix_append (c :: t) b
+      simp only [List.cons_append] at this
+      rw [this]; rfl
+  | d :: ds, b => by
+    have ih := hasSub_mid pat ds b
+    simp only [hasSub, List.cons_append, splitAtSub] at ih ⊢
+    cases stripPrefix pat (d :: (ds ++ (pat ++ b))) with
+    | some _ => rfl
+    | none =>
+      cases hs : splitAtSub pat (ds ++ (pat ++ b)) with
+      | none => simp [hs] at ih
+      | some v => rfl
+
+theorem ws_no_y {w : Str} (h : okWs w = true) : 'y' ∉ w := by
+  intro hm
+  have := (List.all_eq_true.mp h) 'y' hm
+  revert this; decide
+
+theorem all_ne_y_of_ws {w : Str} (h : okWs w = true) : w.all (fun c => c != 'y') = true := by
+  unfold okWs at h
+  rw [List.all_eq_true] at h ⊢
+  intro c hc
+  have := h c hc
+  cases hy : c != 'y' with
+  | true => rfl
+  | false =>
+    have : c = 'y' := by simpa using hy
+    subst this
+    revert this; decide
+
+theorem not_mem_of_all_ne {s : Str} {c : Char} (h : s.all (fun d => d != c) = true) : c ∉ s := by
+  intro hm
+  have := (List.all_eq_true.mp h) c hm
+  simp at this
+
+theorem yes_lit : "yes".toList = ['y', 'e', 's'] := by rfl
+
+theorem decl_standalone (x : CDecl) (h : okDecl x = true) :
+    ((findL N.sd_decl (declBody x).kidsL).map fun v => hasSub "yes".toList v.flatten) = x.sd.map (fun e => e.2.2.2.2) := by
+  obtain ⟨_, _, _, _, _, _, _, _, hsd, _⟩ := okDecl_parts h
+  have e1 : (N.version_info == N.sd_decl) = false := by decide
+  have e2 : (N.encoding_decl == N.sd_decl) = false := by decide
+  rw [declBody_kidsL, yes_lit]
+  have key : (findL N.sd_decl (sdKids x.sd)).map (fun v => hasSub ['y', 'e', 's'] v.flatten) = x.sd.map (fun e => e.2.2.2.2) := by
+    cases hs : x.sd with
+    | none => rfl
+    | some v =>
+      obtain ⟨w, e1', e2', q, b⟩ := v
+      obtain ⟨_, a2, a3, a4, a5⟩ := hsd w e1' e2' q b hs
+      simp only [sdKids, findL, List.find?_cons, beq_self_eq_true, Option.map_some, Option.some.injEq]
+      have hf : (CST.seq [.seq [.leaf w, .leaf kwStandalone, cstEq e1' e2'], .seq [.leaf [q], .leaf (yesNo b), .leaf [q]]]).flatten =
+          (w ++ (kwStandalone ++ (e1' ++ ('=' :: (e2' ++ [q]))))) ++ (yesNo b ++ [q]) := by
+        simp [CST.flatten, flattenL, cstEq]
+      rw [hf]
+      cases b with
+      | true => exact hasSub_mid ['y', 'e', 's'] _ [q]
+      | false =>
+        apply hasSub_no_head
+        apply not_mem_of_all_ne
+        have hq : (q != 'y') = true := by rcases isQuote_cases a5 with rfl | rfl <;> decide
+        simp [List.all_append, all_ne_y_of_ws a2, all_ne_y_of_ws a3, all_ne_y_of_ws a4, yesNo, kwStandalone, hq]
+  cases he : x.enc with
+  | none => simpa [findL, encKids, e1] using key
+  | some v =>
+    obtain ⟨w, e1', e2', q, name⟩ := v
+    simpa [findL, encKids, e1, e2] using key
+
 def docBody (d : CDoc) : CST :=
-  .seq [.node N.prolog (.seq [.seq [], .many (d.before.map cstMisc), .seq []]), cstItemNode d.root, .many (d.after.map cstMisc)]
+  .seq [.node N.prolog (.seq [cstDeclOpt d.decl, .many (d.before.map cstMisc), .seq []]), cstItemNode d.root, .many (d.after.map cstMisc)]
 
 theorem cstDoc_eq (d : CDoc) : cstDoc d = .node N.document (docBody d) := rfl
 
+theorem absProlog_skip_decl (b : CST) (rest : List (Nat × CST)) : absProlog ((N.xml_decl, b) :: rest) = absProlog rest := by
+  have e1 : (N.xml_decl == N.misc) = false := by decide
+  have e2 : (N.xml_decl == N.doctype_decl) = false := by decide
+  simp only [absProlog, e1, e2, Bool.false_eq_true, if_false]
+  cases absProlog rest <;> rfl
+
 theorem absDocument_cst (d : CDoc) (h : d.ok = true) : absDocument (docBody d) = .ok d.erase := by
-  obtain ⟨_, h2, _, h4, h5, h6, _⟩ := CDoc.ok_parts h
-  have hk : (docBody d).kidsL = (N.prolog, CST.seq [.seq [], .many (d.before.map cstMisc), .seq []]) ::
-      (N.element, rootBody d.root) :: d.after.map (fun m => (N.misc, miscBody m)) := by
-    simp [docBody, CST.kidsL, kidsLL, cstItemNode_elem d.root h4, kidsLL_misc]
-  have hp : (CST.seq [.seq [], .many (d.before.map cstMisc), .seq []]).kidsL = d.before.map (fun m => (N.misc, miscBody m)) := by
-    simp [CST.kidsL, kidsLL, kidsLL_misc]
+  obtain ⟨h1, h2, _, h4, h5, h6, _⟩ := CDoc.ok_parts h
   have e1 : (N.prolog == N.element) = false := by decide
   have e2 : (N.prolog == N.misc) = false := by decide
   have e3 : (N.element == N.misc) = false := by decide
@@ -122,10 +257,34 @@ theorem absDocument_cst (d : CDoc) (h : d.ok = true) : absDocument (docBody d) =
     rw [cstItemNode_elem d.root h4] at this
     simpa [CST.size] using this
   have hroot := absElement_root d.root h4 h5 _ hsize
-  simp only [absDocument, hk, findL, List.find?_cons, beq_self_eq_true, Option.map_some, hp,
-    find_misc_none N.xml_decl (by decide), Option.map_none, Option.bind_none, absProlog_misc d.before h2, e1,
-    allL, List.filter_cons, e2, e3, Bool.false_eq_true, if_false, filter_misc_all, filterMap_misc d.after h6, hroot]
-  rfl
+  cases hd : d.decl with
+  | none =>
+    have hk : (docBody d).kidsL = (N.prolog, CST.seq [.seq [], .many (d.before.map cstMisc), .seq []]) ::
+        (N.element, rootBody d.root) :: d.after.map (fun m => (N.misc, miscBody m)) := by
+      simp [docBody, hd, cstDeclOpt, CST.kidsL, kidsLL, cstItemNode_elem d.root h4, kidsLL_misc]
+    have hp : (CST.seq [.seq [], .many (d.before.map cstMisc), .seq []]).kidsL = d.before.map (fun m => (N.misc, miscBody m)) := by
+      simp [CST.kidsL, kidsLL, kidsLL_misc]
+    simp only [absDocument, hk, findL, List.find?_cons, beq_self_eq_true, Option.map_some, hp,
+      find_misc_none N.xml_decl (by decide), Option.map_none, Option.bind_none, absProlog_misc d.before h2, e1,
+      allL, List.filter_cons, e2, e3, Bool.false_eq_true, if_false, filter_misc_all, filterMap_misc d.after h6, hroot]
+    simp [CDoc.erase, hd]
+  | some x =>
+    have hx := h1 x hd
+    have hk : (docBody d).kidsL = (N.prolog, CST.seq [cstDecl x, .many (d.before.map cstMisc), .seq []]) ::
+        (N.element, rootBody d.root) :: d.after.map (fun m => (N.misc, miscBody m)) := by
+      simp [docBody, hd, cstDeclOpt, CST.kidsL, kidsLL, cstItemNode_elem d.root h4, kidsLL_misc]
+    have hp : (CST.seq [cstDecl x, .many (d.before.map cstMisc), .seq []]).kidsL =
+        (N.xml_decl, declBody x) :: d.before.map (fun m => (N.misc, miscBody m)) := by
+      simp [CST.kidsL, kidsLL, kidsLL_misc, cstDecl_eq]
+    have hv := decl_version x
+    have he := decl_encoding x
+    have hs := decl_standalone x hx
+    simp only [absDocument, hk, findL, List.find?_cons, beq_self_eq_true, Option.map_some, hp, Option.bind_some,
+      absProlog_skip_decl, absProlog_misc d.before h2, e1,
+      allL, List.filter_cons, e2, e3, Bool.false_eq_true, if_false, filter_misc_all, filterMap_misc d.after h6, hroot]
+    simp only [findL] at hv he hs
+    rw [hv, he, hs]
+    simp [CDoc.erase, hd]
 
 /-- depth facts about the whole tree -/
 theorem docBody_depth (d : CDoc) : (docBody d).elemDepth ≤ d.root.depth ∧ (docBody d).ntDepth N.children = 0 := by
@@ -136,7 +295,22 @@ theorem docBody_depth (d : CDoc) : (docBody d).elemDepth ≤ d.root.depth ∧ (d
   have d3 := depth_item d.root
   have e1 : (N.prolog == N.element) = false := by decide
   have e2 : (N.prolog == N.children) = false := by decide
-  simp only [docBody, CST.elemDepth, CST.ntDepth, elemDepthL, ntDepthL, e1, e2, d1, d2, d3.2, Bool.false_eq_true, if_false]
+  have d0 : (cstDeclOpt d.decl).elemDepth = 0 ∧ (cstDeclOpt d.decl).ntDepth N.children = 0 := by
+    apply noEl_depth
+    cases d.decl with
+    | none => rfl
+    | some x =>
+      have hq : ∀ a b, noEl (cstEq a b) = true := fun a b => by simp [cstEq, noEl, noElL, N.eq, N.element, N.children]
+      have he : noEl (cstEnc x.enc) = true := by
+        cases x.enc with
+        | none => rfl
+        | some v => obtain ⟨w, e1, e2, q, name⟩ := v; simp [cstEnc, noEl, noElL, hq, N.encoding_decl, N.enc_name, N.element, N.children]
+      have hs : noEl (cstSd x.sd) = true := by
+        cases x.sd with
+        | none => rfl
+        | some v => obtain ⟨w, e1, e2, q, b⟩ := v; simp [cstSd, noEl, noElL, hq, N.sd_decl, N.element, N.children]
+      simp [cstDeclOpt, cstDecl, cstVersionInfo, noEl, noElL, hq, he, hs, N.xml_decl, N.version_info, N.version_num, N.element, N.children]
+  simp only [docBody, CST.elemDepth, CST.ntDepth, elemDepthL, ntDepthL, e1, e2, d0, d1, d2, d3.2, Bool.false_eq_true, if_false]
   refine ⟨?_, by simp⟩
   have := d3.1
   simp only [Nat.max_zero, Nat.zero_max]
